@@ -50,7 +50,8 @@ def make_block(spec):
     """spec: {'type': 'seq', 'start': s, 'values': [...]} or {'type': 'sparse', 'cells': {addr: v}}"""
     if spec['type'] == 'seq':
         vals = list(spec['values'])
-        real = ModbusSequentialDataBlock(spec['start'], list(vals))
+        from ..servermodel import via_ctor
+        real = ModbusSequentialDataBlock(spec['start'], via_ctor(list(vals), spec.get('ctor')))
         model = ModelBlock({spec['start'] + i: v for i, v in enumerate(vals)}, type(vals[0])())
     else:
         cells = {int(k): v for k, v in spec['cells'].items()}         # insertion order as given (not necessarily ascending)
@@ -86,11 +87,23 @@ def apply_ops(run, spec, ops, case, tag):
                 _, a, c = op
                 if not model.validate(a, c):
                     continue
-                got, want = list(real.getValues(a, c)), model.get(a, c)
+                res = real.getValues(a, c)
+                got, want = list(res), model.get(a, c)
                 run.count('comparisons')
                 if got != want:
                     _fail(run, spec, case, tag, after_reset, 'get', 'op %d getValues(%d,%d) = %r, model %r' % (i, a, c, got, want))
                     return False
+                if isinstance(res, list):
+                    # what a read returns is the caller's: sorting it, popping from it, using it as a buffer must not reach into the block
+                    for j in range(len(res)):
+                        res[j] = (not res[j]) if isinstance(res[j], bool) else (res[j] ^ 0x155) & 0xFFFF
+                    res.append(0)
+                    del res[0]
+                    run.count('read_results_overwritten')
+                    if dump(real) != model.cells:
+                        _fail(run, spec, case, tag, after_reset, 'get-result-aliased', 'op %d: the list returned by getValues(%d,%d) was overwritten by its caller: cells %r, model %r'
+                              % (i, a, c, _d(dump(real)), _d(model.cells)))
+                        return False
             elif kind == 'set':
                 _, a, vals = op
                 if not model.validate(a, len(vals)):
@@ -185,7 +198,12 @@ def random_block_spec(r):
         size = r.choice([1, 2, 3, 8, 16, 64]) if r.random() < 0.8 else r.randint(1, 300)
         size = min(size, 65536 - start)
         boolean = r.random() < 0.4
-        return {'type': 'seq', 'start': start, 'values': [(r.random() < 0.5) if boolean else r.randrange(65536) for _ in range(size)]}
+        spec = {'type': 'seq', 'start': start, 'values': [(r.random() < 0.5) if boolean else r.randrange(65536) for _ in range(size)]}
+        from ..servermodel import CTORS
+        how = r.choice(CTORS)
+        if how:
+            spec['ctor'] = how       # initial values handed over as a tuple / generator / iterator / map object
+        return spec
     base = r.choice([0, 1, 50, 65500])
     keys = sorted(set(base + r.randrange(0, 24) for _ in range(r.randint(1, 16))))
     if r.random() < 0.6:
